@@ -99,7 +99,17 @@ def install(lib, np_):
       L = cx.p.lists[obj.lid]
       e = L['elem']
       if isinstance(e, VTuple):
-        return cx.new(None, [L['n'], z3.IntVal(len(e.items))], k or 'i', vf=cx.join_vf(e.items))
+        res = cx.new(fresh('fromlist', T) if L.get('einv') is not None else None, [L['n'], z3.IntVal(len(e.items))], k or 'i', vf=cx.join_vf(e.items))
+        if L.get('einv') is not None and all(isinstance(x, VInt) for x in e.items):
+          # ghost: every row of the array is an element of the list, and every element of the list satisfies the list's element invariant
+          At = cx.p.store[res.loc].term
+          r_ = z3.Int('r!row')
+          comps = [z3.ToInt(TH.at2(At, r_, z3.IntVal(c))) for c in range(len(e.items))]
+          fact = L['einv'](comps)
+          cx.p.assume(z3.ForAll([r_], z3.Implies(z3.And(r_ >= 0, r_ < L['n']),
+                                                 z3.And(fact, *[z3.IsInt(TH.at2(At, r_, z3.IntVal(c))) for c in range(len(e.items))])),
+                                patterns=[TH.at2(At, r_, z3.IntVal(0))]))
+        return res
       if e is None:
         # a list that never received an element on this path (symbolic length may still be positive after a havoc)
         return cx.new(None, [L['n']], k or 'f')
@@ -336,6 +346,9 @@ def install(lib, np_):
     s = st_of(cx, cond)
     n = fresh_count(cx, 'ntrue', 0, s.shape.size())
     t = TH.whereT(s.term) if (s.term is not None and s.shape.rank == 1) else None
+    if t is not None:
+      cx.p.assume(TH.lenT(t) == n)
+      cx.p.assume(TH.lenT(s.term) == s.shape.dims[0])
     first = cx.new(t, [n], 'i', vf=s.shape.dims[0])
     return VTuple([first] + [cx.new(None, [n], 'i', vf=s.shape.dims[k]) for k in range(1, s.shape.rank)])
   ext('numpy.nonzero')(_where)
@@ -680,6 +693,11 @@ def install(lib, np_):
         out = wrap_scalar(fresh('choice', z3.IntSort() if s.kind in 'ib' else z3.RealSort()), s.kind)
         if s.vf is not None:
           out.vf = s.vf
+        if s.term is not None and s.shape.rank == 1:
+          # the drawn value IS one of the entries of the array
+          k0 = fresh('drawn', z3.IntSort())
+          cx.p.assume(z3.And(k0 >= 0, k0 < s.shape.dims[0]))
+          cx.p.assume((z3.ToReal(out.t) if out.t.sort() == z3.IntSort() else out.t) == TH.at1(s.term, k0))
         return out
       return VInt(fresh('choice', z3.IntSort()))
     n = size.t
